@@ -139,6 +139,16 @@ def cases(tier, seed):
             ov = [['str', 'str|float']]
             out.append((name, h, {'hint_overrides': ov, 'is_pep484_tower': True},
                         {'gen': 'c18', 'tier': tier, 'seed': seed, 'name': name, 'mode': 'override+tower', 'ov': ov}))
+    # numeric tower together with an override that merely restates one of the two tower expansions (legal: it does
+    # not contradict the tower), or restates both: the other expansion must still apply
+    for name, h in hs:
+        if re.search(r'float|complex', name) and (tier != 'quick' or hash(name) % 2 == 0):
+            for ov in ([['float', 'float|int']], [['complex', 'complex|float|int']],
+                       [['float', 'float|int'], ['complex', 'complex|float|int']]):
+                if tier == 'quick' and len(ov) == 2 and hash(name) % 4:
+                    continue
+                out.append((name, h, {'hint_overrides': ov, 'is_pep484_tower': True},
+                            {'gen': 'c18', 'tier': tier, 'seed': seed, 'name': name, 'mode': 'override+tower', 'ov': ov}))
     # violation-type family never changes the verdict
     vt = [{'violation_type': 'VerifWarning'}, {'violation_type': 'VerifError'},
           {'violation_door_type': 'VerifWarning', 'violation_param_type': 'VerifError'},
